@@ -742,4 +742,103 @@ Proof.
   split; [intros re; symmetry; apply same_get; exact Hs|].
   split; [rewrite !len_entries, He; reflexivity|exact He].
 Qed.
+
+(* ======================================================================================== *)
+(* update_at (get_mut + mutation), map_acc (iter_mut), trace                                  *)
+(* ======================================================================================== *)
+Definition upd_entry (re : pat) (f : V -> V) (e : entry) : entry :=
+  if pat_eqb (fst e) re then (fst e, (id_of e, f (value_of e))) else e.
+
+Lemma update_at_entries tic (it : item) re f : inv tic it ->
+  entries (update_at V it re f) = map (upd_entry re f) (entries it).
+Proof.
+  induction it as [ic|nre ic c cs IH|lre ic c vs] using item_ind'; cbn [update_at Tree.entries]; intros Hi.
+  - reflexivity.
+  - destruct Hi as (-> & Hsh & Hpre & Hall). apply inv_all in Hall.
+    destruct (starts_with re nre) eqn:Es.
+    + cbn [Tree.entries]. clear Hpre. induction cs as [|x cs IHcs]; cbn; [reflexivity|]. inversion IH; subst. inversion Hall; subst.
+      rewrite map_app. f_equal; auto.
+    + cbn [Tree.entries]. symmetry. rewrite <- (map_id (flat_map entries cs)) at 2. apply map_ext_in. intros e He.
+      unfold upd_entry. destruct (pat_eqb (fst e) re) eqn:Ee; [|reflexivity]. exfalso. apply str_eqb_spec in Ee.
+      apply in_flat_map in He. destruct He as (x & Hx & He).
+      assert (tpre nre (fst e)) as Ht. { apply Hpre. apply in_flat_map. exists x. split; [exact Hx|apply entries_pats; exact He]. }
+      apply tpre_starts in Ht. rewrite Ee in Ht. congruence.
+  - destruct (pat_eqb lre re) eqn:E; cbn [Tree.entries].
+    + rewrite !map_map. apply map_ext. intros [k v]. unfold upd_entry, id_of, value_of. cbn. rewrite E. reflexivity.
+    + rewrite map_map. apply map_ext. intros [k v]. unfold upd_entry. cbn. rewrite E. reflexivity.
+Qed.
+
+Lemma update_at_pats (it : item) re f : pats (update_at V it re f) = pats it.
+Proof.
+  induction it as [ic|nre ic c cs IH|lre ic c vs] using item_ind'; cbn [update_at pats]; [reflexivity| |destruct (pat_eqb lre re); reflexivity].
+  destruct (starts_with re nre); [|reflexivity]. cbn [pats]. induction cs as [|x cs IHcs]; cbn; [reflexivity|]. inversion IH; subst. f_equal; auto.
+Qed.
+
+Lemma update_at_inv tic (it : item) re f : inv tic it -> inv tic (update_at V it re f).
+Proof.
+  induction it as [ic|nre ic c cs IH|lre ic c vs] using item_ind'; cbn [update_at]; intros Hi.
+  - exact Hi.
+  - destruct (starts_with re nre); [|exact Hi]. cbn [inv] in *. destruct Hi as (-> & Hsh & Hpre & Hall). apply inv_all in Hall.
+    split; [reflexivity|]. split; [exact Hsh|]. split.
+    + intros q Hq. apply Hpre. clear - Hq IH. induction cs as [|x cs IHcs]; cbn in *; [exact Hq|]. inversion IH; subst.
+      rewrite in_app_iff in *. destruct Hq as [Hq|Hq]; [left; rewrite update_at_pats in Hq; exact Hq|right; auto].
+    + apply inv_all. clear - IH Hall. induction cs as [|x cs IHcs]; cbn; [constructor|]. inversion IH; subst. inversion Hall; subst. constructor; auto.
+  - destruct (pat_eqb lre re); exact Hi.
+Qed.
+
+(* iter_mut over every value with an accumulator: entries are rewritten value-wise, in traversal order *)
+Lemma map_values_acc_keys {A} (g : V -> A -> V * A) vs : forall a, map fst (fst (map_values_acc V g vs a)) = map fst vs.
+Proof.
+  induction vs as [|[k v] vs IH]; intros a; cbn; [reflexivity|].
+  destruct (g v a) as [v' a1]. specialize (IH a1). destruct (map_values_acc V g vs a1) as [r a2]. cbn in *. f_equal. exact IH.
+Qed.
+
+Inductive same_keys : item -> item -> Prop :=
+| SKE ic : same_keys (Empty ic) (Empty ic)
+| SKL re ic c vs vs' : map fst vs = map fst vs' -> same_keys (Leaf re ic c vs) (Leaf re ic c vs')
+| SKN re ic c cs cs' : Forall2 same_keys cs cs' -> same_keys (Node re ic c cs) (Node re ic c cs').
+
+Lemma map_acc_same_keys {A} (g : V -> A -> V * A) (it : item) : forall a, same_keys it (fst (map_acc V g it a)).
+Proof.
+  induction it as [ic|re ic c cs IH|re ic c vs] using item_ind'; intros a; cbn [map_acc].
+  - constructor.
+  - assert (H : forall l a, Forall (fun x => forall a, same_keys x (fst (map_acc V g x a))) l ->
+                            Forall2 same_keys l (fst (map_acc_list V (fun x a => map_acc V g x a) l a))).
+    { induction l as [|x l IHl]; intros a0 Hl; cbn; [constructor|]. inversion Hl; subst.
+      destruct (map_acc V g x a0) as [x' a1] eqn:E1. destruct (map_acc_list V (fun x a => map_acc V g x a) l a1) as [r a2] eqn:E2. cbn. constructor.
+      - specialize (H1 a0). rewrite E1 in H1. exact H1.
+      - specialize (IHl a1 H2). rewrite E2 in IHl. exact IHl. }
+    specialize (H cs a IH). destruct (map_acc_list V (fun x a => map_acc V g x a) cs a) as [cs' a']. cbn in *. constructor. exact H.
+  - pose proof (map_values_acc_keys g vs a) as Hk. destruct (map_values_acc V g vs a) as [vs' a']. cbn in *. constructor. symmetry. exact Hk.
+Qed.
+
+Lemma same_keys_pats (a b : item) : same_keys a b -> pats a = pats b.
+Proof.
+  revert b. induction a as [ic|re ic c cs IH|re ic c vs] using item_ind'; intros b H; inversion H; subst; cbn; try reflexivity.
+  match goal with H : Forall2 same_keys cs ?m |- _ => revert H; generalize m end. clear H.
+  induction cs as [|x cs IHcs]; intros m Hm; inversion Hm; subst; cbn; [reflexivity|]. inversion IH; subst. f_equal; auto.
+Qed.
+
+Lemma same_keys_inv tic (a b : item) : same_keys a b -> inv tic a -> inv tic b.
+Proof.
+  revert b. induction a as [ic|re ic c cs IH|re ic c vs] using item_ind'; intros b H Hi; inversion H; subst; cbn [inv] in *; auto.
+  destruct Hi as (-> & Hs & Hpre & Hall). apply inv_all in Hall. split; [reflexivity|]. split; [exact Hs|].
+  match goal with H : Forall2 same_keys cs ?m |- _ => rename H into HF; rename m into cs2 end.
+  assert (flat_map pats cs = flat_map pats cs2) as Hp.
+  { clear - HF. induction HF; cbn; [reflexivity|]. f_equal; [apply same_keys_pats; assumption|assumption]. }
+  split; [rewrite <- Hp; exact Hpre|]. apply inv_all.
+  clear - IH Hall HF. induction HF; [constructor|]. inversion IH; subst. inversion Hall; subst. constructor; auto.
+Qed.
+
+(* the explain trace of the tree lists exactly what find returns *)
+Fixpoint tree_trace_values (t : Tree.trace V) : list V :=
+  match t with Tr _ _ m ch vs => (if m then vs else []) ++ flat_map tree_trace_values ch end.
+Lemma trace_values_find (it : item) s : tree_trace_values (trace_of V eng it s) = find it s.
+Proof.
+  induction it as [ic|re ic c cs IH|re ic c vs] using item_ind'; cbn [trace_of tree_trace_values Tree.find].
+  - reflexivity.
+  - destruct (Tree.mnode eng ic re c s); cbn; [|reflexivity].
+    induction cs as [|x cs IHcs]; cbn; [reflexivity|]. inversion IH; subst. f_equal; auto.
+  - destruct (Tree.mleaf eng ic re c s); cbn; rewrite ?app_nil_r; reflexivity.
+Qed.
 End TreeProofs.
